@@ -1058,6 +1058,22 @@ pub fn gen_help_lines(d: &Decl, rng: &mut Rng, reps: usize) -> Vec<HelpCase> {
             out.push(HelpCase { line: render_tokens(&t, rng), kind: "help-option", about: About::Path(p.clone()) });
         }
     }
+    // option-shaped tokens the command does not declare (`---`, `----`, `---x`, ...: long options by C08's rules, none of them
+    // `--`) in front of the help option: the line still carries -h / --help among its options before any `--`
+    for p in &paths {
+        if declares_short_h(d, p) {
+            continue;
+        }
+        let mut t: Vec<String> = p.clone();
+        for _ in 0..rng.range(1, 2) {
+            t.push(rng.pick(&["---", "----", "---x", "--é-", "-----"]).to_string());
+        }
+        t.push(if rng.chance(50) { "-h".into() } else { "--help".into() });
+        if rng.chance(40) {
+            t.push(rng.pick(&["---", "--zz9"]).to_string());
+        }
+        out.push(HelpCase { line: render_tokens(&t, rng), kind: "help-option-after-undeclared-options", about: About::Path(p.clone()) });
+    }
     // help vs parser agreement: a complete invocation (parent options of every level, some of them left without their
     // value, some clustered with a flag) plus a help option somewhere after the last path name
     for p in &paths {
